@@ -387,7 +387,10 @@ func (e *kvElection) becomeLeader(token string, rev uint64) bool {
 
 	// Context of this term, handed to OnPromote: cancelled when the term ends,
 	// by demotion (enterFollowerState) or because the election stops (parent).
-	termCtx, termCancel := context.WithCancel(e.ctx)
+	// The goroutines started below use this copy: e.ctx is guarded by mu and may
+	// be replaced or cleared once the mutex is released.
+	ctx := e.ctx
+	termCtx, termCancel := context.WithCancel(ctx)
 	e.termCancel = termCancel
 
 	fromState := StateInit
@@ -426,13 +429,13 @@ func (e *kvElection) becomeLeader(token string, rev uint64) bool {
 	e.wg.Add(1)
 	go func() {
 		defer e.wg.Done()
-		e.heartbeatLoop(e.ctx)
+		e.heartbeatLoop(ctx)
 	}()
 
 	e.wg.Add(1)
 	go func() {
 		defer e.wg.Done()
-		e.validationLoop(e.ctx)
+		e.validationLoop(ctx)
 	}()
 
 	if e.onPromote != nil {
@@ -448,7 +451,7 @@ func (e *kvElection) becomeLeader(token string, rev uint64) bool {
 				if r := recover(); r != nil {
 					log := e.getLogger()
 					log.Error("onpromote_callback_panic",
-						append(e.logWithContext(e.ctx),
+						append(e.logWithContext(ctx),
 							zap.Any("panic", r),
 						)...,
 					)
@@ -592,13 +595,13 @@ func (e *kvElection) enterFollowerState(demote bool) bool {
 		)...,
 	)
 
-	if e.ctx != nil && !e.watcherRunning.Load() {
+	if ctx := e.ctx; ctx != nil && !e.watcherRunning.Load() {
 		e.watcherRunning.Store(true)
 		e.wg.Add(1)
 		go func() {
 			defer e.watcherRunning.Store(false)
 			defer e.wg.Done()
-			e.watchLoop(e.ctx)
+			e.watchLoop(ctx)
 		}()
 	}
 
